@@ -474,7 +474,7 @@ def scenarios(tier, seed):
     phases = ["sow", "resow", "grow_crop", "grow_missing", "grow_fn", "reap"]
     for farmer in ("raw", "runner", "harvester", "sampler"):
         for phase in phases:
-            reps = 3 if tier == "quick" else 12
+            reps = 3 if tier == "quick" else 30
             for r in range(reps):
                 B = rng.randint(2, 4 if tier == "quick" else 5)
                 sc = {"farmer": farmer, "phase": phase, "B": B,
